@@ -725,7 +725,20 @@ func execTopa(r *RNG, c *Case) {
 }
 
 // runCLI runs the gofasta binary
+// runCLI runs the binary. A run that could not be started, or that was ended by a signal (exit code -1 without a timeout:
+// the machine ran out of processes or memory while several checks shared it), says nothing about gofasta and is repeated,
+// up to three times, after a pause; an exit status the program itself chose is never retried.
 func runCLI(timeout time.Duration, stdin string, args ...string) (stdout string, stderr string, code int, timedOut bool) {
+	for attempt := 0; ; attempt++ {
+		stdout, stderr, code, timedOut = runCLIOnce(timeout, stdin, args...)
+		if code != -1 || timedOut || attempt == 2 {
+			return
+		}
+		time.Sleep(time.Duration(200*(attempt+1)) * time.Millisecond)
+	}
+}
+
+func runCLIOnce(timeout time.Duration, stdin string, args ...string) (stdout string, stderr string, code int, timedOut bool) {
 	cmd := exec.Command(opts.gobin, args...)
 	cmd.Stdin = strings.NewReader(stdin)
 	var o, e bytes.Buffer
